@@ -1,6 +1,6 @@
 (* C07 — Decoders and parsers are total and resource-bounded on arbitrary input.  Theorems only;
-   proofs in theories/TotalProofs.v, CostProofs.v, SigParseProofs.v. *)
-From QV Require Import Reader Message Wire Value GenDec Cost CostProofs TotalProofs ParseOpt SigParse SigParseProofs WireRefute WireTop.
+   proofs in theories/TotalProofs.v, CostProofs.v, SigParseProofs.v, SigParseMerged.v. *)
+From QV Require Import Reader Message Wire Value GenDec Cost CostProofs TotalProofs ParseOpt SigParse SigParseProofs SigParseMerged WireRefute WireTop.
 Local Open Scope N_scope.
 
 (* ---- totality on ARBITRARY bytes: a value or an error, never a panic, never stuck ---- *)
@@ -73,5 +73,26 @@ Theorem C07_refuted_neg_len : refl_dec only_neg_len tval_eqb (TList (TS SI32)) [
 Proof. exact refl_neg_len_refuted. Qed.
 Print Assumptions C07_refuted_neg_len.
 
+(* ---- the repaired signature grammar (design/C07.grammar.fix.diff: "(" list ")" parsed once, the
+   struct definition optional; model parse_m, chosen by the observed grammar text, TieC09) ---- *)
+(* at most 30 parser invocations per character of the input, plus 24: every string, accepted or not *)
+Theorem C07_parse_merged_linear : forall s, parse_steps_m s <= 30 * N.of_nat (String.length s) + 24.
+Proof. exact parse_steps_m_linear. Qed.
+Print Assumptions C07_parse_merged_linear.
+(* the witness of C07_refuted_parse_exponential costs at most 60 n + 24 *)
+Theorem C07_parse_merged_nest_linear : forall n, parse_steps_m (nest n) <= 60 * N.of_nat n + 24.
+Proof. exact nest_steps_m_linear. Qed.
+Print Assumptions C07_parse_merged_nest_linear.
+(* and the repair changes no result: same value or error for every string, so C07_parse_total holds for it *)
+Theorem C07_parse_merged_same : forall s, parse_m s = parse s.
+Proof. exact parse_m_parse. Qed.
+Print Assumptions C07_parse_merged_same.
+Theorem C07_parse_merged_total : forall s, parse_m s <> PFuel.
+Proof. exact parse_m_total. Qed.
+Print Assumptions C07_parse_merged_total.
+
 Example C07_nonvacuous : wfz WireTop.ex_ty = true /\ plain_m ty_MetaObject = true.
 Proof. split; vm_compute; reflexivity. Qed.
+(* 22 nested parentheses (the witness the harness runs): 1166 invocations against at least 2^22 *)
+Example C07_nonvacuous_merged : parse_steps_m (nest 22) = 1166 /\ 2 ^ 22 <= parse_steps (nest 22).
+Proof. exact nest22_steps. Qed.
